@@ -6,6 +6,7 @@ package main
 
 import (
 	"fmt"
+	"os"
 	"go/token"
 	"go/types"
 	"strings"
@@ -262,6 +263,29 @@ func (in *Interp) global(g *ssa.Global) Ptr {
 	return p
 }
 
+// storeInto assigns v to the cell at p. Structs and arrays are overwritten
+// field by field, in place, so that pointers to their fields stay valid (as
+// in real memory).
+func storeInto(p Ptr, v Value) {
+	switch nv := v.(type) {
+	case Struct:
+		if old, ok := (*p).(Struct); ok && len(old) == len(nv) {
+			for i := range old {
+				storeInto(&old[i], nv[i])
+			}
+			return
+		}
+	case Array:
+		if old, ok := (*p).(Array); ok && len(old) == len(nv) {
+			for i := range old {
+				storeInto(&old[i], nv[i])
+			}
+			return
+		}
+	}
+	*p = copyVal(v)
+}
+
 func deref(t types.Type) types.Type {
 	if p, ok := t.Underlying().(*types.Pointer); ok {
 		return p.Elem()
@@ -367,6 +391,9 @@ func (in *Interp) callSSA(caller *frame, fn *ssa.Function, args []Value, env []V
 	}
 	if fn.Blocks == nil {
 		in.unsupported("external function " + key)
+	}
+	if traceCalls && in.steps < traceLimit {
+		fmt.Fprintf(os.Stderr, "%*s%s %s\n", in.depth, "", key, clip(showArgs(args)))
 	}
 	in.depth++
 	if in.depth > 2000 {
@@ -552,7 +579,7 @@ func (in *Interp) visit(fr *frame, instr ssa.Instruction) continuation {
 			in.throw(fr, "invalid memory address or nil pointer dereference")
 		}
 		in.onWrite(fr, p)
-		*p = copyVal(fr.get(instr.Val))
+		storeInto(p, fr.get(instr.Val))
 	case *ssa.If:
 		c := fr.get(instr.Cond).(SBool)
 		var taken bool
@@ -590,7 +617,7 @@ func (in *Interp) visit(fr *frame, instr ssa.Instruction) continuation {
 		} else {
 			addr = fr.get(instr).(Ptr)
 		}
-		*addr = zero(deref(instr.Type()))
+		storeInto(addr, zero(deref(instr.Type())))
 	case *ssa.MakeSlice:
 		tElt0 := instr.Type().Underlying().(*types.Slice).Elem()
 		in.boundMake(fr, fr.get(instr.Cap), tElt0)
@@ -862,4 +889,15 @@ func (in *Interp) runInit(caller *frame, pkg *ssa.Package) {
 		in.runFrame(fr)
 	}
 	in.cur.fr = saved
+}
+
+var traceCalls = os.Getenv("GOSYM_TRACE") != ""
+var traceLimit int64 = 200000
+
+func showArgs(args []Value) string {
+	s := ""
+	for _, a := range args {
+		s += showValue(a, nil, 3) + ", "
+	}
+	return s
 }
